@@ -129,6 +129,11 @@ func handleScan(db *NoKV.DB, req *pb.ScanRequest) (*pb.ScanResponse, error) {
 	resp := &pb.ScanResponse{}
 	iter.Rewind()
 	reader := percolator.NewReader(db)
+	// A key that is locked but has no write record yet never shows up among the
+	// write records walked below. Lock entries sort before write records, so
+	// remember the smallest in-range key whose lock blocks this read.
+	var pendingKey []byte
+	var pendingLock *percolator.Lock
 	for iter.Valid() && len(resp.Kvs) < limit {
 		item := iter.Item()
 		if item == nil {
@@ -139,6 +144,19 @@ func handleScan(db *NoKV.DB, req *pb.ScanRequest) (*pb.ScanResponse, error) {
 		if entry == nil {
 			iter.Next()
 			continue
+		}
+		if entry.CF == kv.CFLock && pendingKey == nil {
+			cmp := bytes.Compare(entry.Key, startKey)
+			if len(startKey) == 0 || cmp > 0 || (cmp == 0 && includeStart) {
+				lockKey := kv.SafeCopy(nil, entry.Key)
+				lock, err := reader.GetLock(lockKey)
+				if err != nil {
+					return nil, err
+				}
+				if lock != nil && readTs >= lock.Ts {
+					pendingKey, pendingLock = lockKey, lock
+				}
+			}
 		}
 		if entry.CF != kv.CFWrite {
 			iter.Next()
@@ -152,6 +170,12 @@ func handleScan(db *NoKV.DB, req *pb.ScanRequest) (*pb.ScanResponse, error) {
 				continue
 			}
 			started = true
+		}
+		if pendingKey != nil && bytes.Compare(pendingKey, key) < 0 {
+			// a locked key without write records lies before this key
+			resp.Error = lockedError(pendingKey, pendingLock)
+			pendingKey = nil
+			break
 		}
 		lock, err := reader.GetLock(key)
 		if err != nil {
@@ -173,6 +197,10 @@ func handleScan(db *NoKV.DB, req *pb.ScanRequest) (*pb.ScanResponse, error) {
 				Version: readTs,
 			})
 		}
+	}
+	if resp.Error == nil && pendingKey != nil && len(resp.Kvs) < limit {
+		// the write records ran out before the limit: the locked key is part of the scanned range
+		resp.Error = lockedError(pendingKey, pendingLock)
 	}
 	return resp, nil
 }
